@@ -411,6 +411,11 @@ fn process_withdrawals_for_single_pool<C: ContentAddrStore>(
     }
     // get the state
     let mut pool_state = state.pools.get(pool).unwrap();
+    // more liquidity tokens than the pool ever issued (on a faucet-enabled network a Faucet transaction can create coins of any
+    // denomination, a pool's liquidity token included): nothing can be redeemed against them
+    if total_liqs > pool_state.liqs {
+        return;
+    }
     let (total_left, total_write) = pool_state.withdraw(total_liqs);
     state.pools.insert(*pool, pool_state);
     // divvy up the lefts and rights
@@ -482,8 +487,9 @@ fn process_withdrawals<C: ContentAddrStore>(mut state: UnsealedState<C>) -> Unse
 
 /// Process pegging.
 fn process_pegging<C: ContentAddrStore>(mut state: UnsealedState<C>) -> UnsealedState<C> {
-    // ERG/SYM can have been created by users before TIP-902 made it a built-in; it then holds no unowned liquidity and can be
-    // withdrawn down to nothing, and without reserves there is no exchange rate to peg to
+    // A pool without reserves has no exchange rate to peg to. ERG/SYM can have been created by users before TIP-902 made it a
+    // built-in; it then holds no unowned liquidity and can be withdrawn down to nothing. On a faucet-enabled network any pool can be
+    // emptied, because a Faucet transaction can create liquidity tokens out of nothing.
     if state.tip_902() {
         let es_pool = state
             .pools
@@ -492,6 +498,21 @@ fn process_pegging<C: ContentAddrStore>(mut state: UnsealedState<C>) -> Unsealed
         if es_pool.lefts == 0 || es_pool.rights == 0 {
             return state;
         }
+    } else {
+        let me_pool = state
+            .pools
+            .get(&PoolKey::new(Denom::Mel, Denom::Erg))
+            .unwrap();
+        if me_pool.lefts == 0 || me_pool.rights == 0 {
+            return state;
+        }
+    }
+    let ms_pool = state
+        .pools
+        .get(&PoolKey::new(Denom::Mel, Denom::Sym))
+        .unwrap();
+    if ms_pool.lefts == 0 || ms_pool.rights == 0 {
+        return state;
     }
     // first calculate the implied sym/Erg exchange rate
     let x_sd = if state.tip_902() {
